@@ -83,13 +83,19 @@ class _Exit(Exception):
 
 class Daemon:
     def __init__(self, scripts=None, idle_signals=None, env_ok=None, eclass_ok=None, nkeys=3,
-                 handshake=False, cwd="/", sandbox_log=None, features=None):
+                 handshake=False, cwd="/", sandbox_log=None, features=None, env_events=None, on_reply_input=None):
         # scripts: list of event lists (k-th execution request uses scripts[k]) or a callable
         # returning the event list for the execution request that is starting
         self.scripts = scripts if callable(scripts) else [list(s) for s in (scripts or [])]
         self.cwd = cwd
         self.sandbox_log = sandbox_log
         self.features = dict(FEATURES_PINNED, **(features or {}))
+        # env_events(payload) -> events the evaluated env chunk itself performs (a chunk is bash code; the
+        # conformance driver sends chunks that call __source_bashrcs / __internal_inherit directly)
+        self.env_events = env_events or (lambda payload: [])
+        # on_reply_input(rec, line): called whenever running ebuild code consumes a line as the *reply* to
+        # one of its own requests (inherit / bashrcs / helper); lets the harness see which bytes those were
+        self.on_reply_input = on_reply_input or (lambda rec, line: None)
         self.idle_signals = {int(k): v for k, v in (idle_signals or {}).items()}
         self.env_ok = env_ok or (lambda payload: True)
         self.eclass_ok = eclass_ok or (lambda path: True)
@@ -373,6 +379,10 @@ class Daemon:
                 elif rest.startswith("bytes"):
                     payload = yield from self._read_size(rest[len("bytes"):].strip())
                     ok = self.env_ok(payload)
+                    if ok:
+                        rec.setdefault("tagend", self.consumed)
+                        yield from self._run_events(rec, [list(e) for e in self.env_events(payload)], "phase", None)
+                        self.where = "phase-loop"
                 else:
                     ok = True
                     while True:
@@ -417,9 +427,19 @@ class Daemon:
     # ------------------------------------------------------------------ what ebuild code does
     def _execute(self, rec, mode, stderr=None):
         self.where = "exec"
-        tagend = self.consumed
-        rec["tagend"] = tagend
-        for ev in rec["script"]:
+        rec["tagend"] = self.consumed
+        yield from self._run_events(rec, rec["script"], mode, stderr)
+        self._finish(rec, mode)
+
+    def _reply_line(self, rec):
+        """a line read as the reply to a request the running ebuild code made itself"""
+        line = yield from self._read_line()
+        self.on_reply_input(rec, line)
+        return line
+
+    def _run_events(self, rec, events, mode, stderr):
+        self.where = "exec"
+        for ev in events:
             kind = ev[0]
             self.cur_cmd = "exec:" + kind
             if kind == "inherit":
@@ -427,24 +447,25 @@ class Daemon:
                 if name in self.preloaded:
                     continue
                 self._w(f"request_inherit {name}")
-                line = yield from self._read_line()
+                line = yield from self._reply_line(rec)
                 if line in ("path", "transfer"):
-                    yield from self._read_line()
+                    yield from self._reply_line(rec)
                 else:
                     rec["outcome"] = "died"
                     yield from self._die(1, f"unknown inherit command from python for eclass {name}: '{line}'")
             elif kind == "bashrcs":
                 self._w("request_bashrcs")
-                line = yield from self._read_line()
+                line = yield from self._reply_line(rec)
                 while line != "end_request":
                     if line in ("path", "transfer"):
-                        yield from self._read_line()
+                        # the ack is written whatever the status of the sourced file's last command is
+                        yield from self._reply_line(rec)
                     else:
                         self._w("failed")
                         rec["outcome"] = "died"
                         yield from self._die(1, f"unknown profile bashrc transfer mode from python: '{line}'")
                     self._w("next", "reply_ok")
-                    line = yield from self._read_line()
+                    line = yield from self._reply_line(rec)
             elif kind == "ipc":
                 _, cmd, args, nonfatal = ev
                 self._w(cmd)
@@ -454,6 +475,7 @@ class Daemon:
                 self._w("")
                 self._w(b"".join(a.encode() + b"\0" for a in args))
                 raw = yield from self._read_raw_line()  # __ebd_read_array
+                self.on_reply_input(rec, raw)
                 if raw is None:
                     rec["outcome"] = "died"
                     yield from self._die(1, "coms error, read_array failed")
@@ -476,6 +498,8 @@ class Daemon:
                     self.pending_trap = ev[1]
             else:
                 raise ValueError(f"unknown model event {ev!r}")
+
+    def _finish(self, rec, mode):
         self.cur_cmd = "exec:end"
         if mode == "depend":
             for i in range(self.nkeys):
